@@ -3,6 +3,7 @@
 package main
 
 import (
+	"context"
 	"fmt"
 	"os"
 	"path/filepath"
@@ -11,7 +12,13 @@ import (
 	"strings"
 
 	"github.com/IrineSistiana/mosdns/v5/coremain"
+	"github.com/IrineSistiana/mosdns/v5/pkg/matcher/domain"
+	"github.com/IrineSistiana/mosdns/v5/pkg/query_context"
 	"github.com/IrineSistiana/mosdns/v5/plugin/data_provider/domain_set"
+	"github.com/IrineSistiana/mosdns/v5/plugin/executable/sequence"
+	base_domain "github.com/IrineSistiana/mosdns/v5/plugin/matcher/base_domain"
+	"github.com/IrineSistiana/mosdns/v5/plugin/matcher/qname"
+	"github.com/miekg/dns"
 )
 
 // C12, the data_provider/domain_set plugin: a set is assembled from its own expressions, its files and
@@ -28,6 +35,70 @@ type set12 struct {
 	refs     []int    // positions of the referenced sets, in `sets:` order
 	rootOnly bool     // the own rules are rules for the root only
 	built    *domain_set.DomainSet
+	// a qname matcher of a sequence (plugin/matcher/base_domain) instead of a domain_set plugin: "" (a set),
+	// "qname" (built by the qname plugin's quick setup from `$set... rule... &file`) or "args" (built by
+	// base_domain.NewMatcher from Args). Its rules are its own expressions, its file and the rules of the
+	// sets it names, exactly as for a set; nothing can reference it.
+	matcher string
+	seqM    sequence.Matcher
+}
+
+// matches12 asks the set (through its GetDomainMatcher) or the matcher (with a query for the name).
+func (s *set12) matches12(name string) bool {
+	if s.matcher == "" {
+		_, ok := s.built.GetDomainMatcher().Match(name)
+		return ok
+	}
+	q := new(dns.Msg)
+	q.Id = 1
+	q.Question = []dns.Question{{Name: name, Qtype: dns.TypeA, Qclass: dns.ClassINET}}
+	ok, err := s.seqM.Match(context.Background(), query_context.NewContext(q))
+	if err != nil {
+		fatal(err)
+	}
+	return ok
+}
+
+// matchQuestion12: the match function handed to base_domain.NewMatcher (what the qname plugin passes).
+func matchQuestion12(qCtx *query_context.Context, m domain.Matcher[struct{}]) (bool, error) {
+	for _, question := range qCtx.Q().Question {
+		if _, ok := m.Match(question.Name); ok {
+			return true, nil
+		}
+	}
+	return false, nil
+}
+
+// matchers12 appends 2..4 qname matchers to a configuration: each names a set first (mostly the same one,
+// `shared`), then now and then further sets, and carries rules of its own (expressions, some in a file).
+func (r *Run) matchers12(sets []*set12, shared int, pool *[]string) []*set12 {
+	nSets := len(sets)
+	for i, k := 0, 2+r.Rng.Intn(3); i < k; i++ {
+		s := &set12{tag: fmt.Sprintf("q%d", i), matcher: []string{"qname", "args"}[r.Rng.Intn(2)]}
+		first := shared
+		if r.Rng.Intn(6) == 0 {
+			first = r.Rng.Intn(nSets)
+		}
+		s.refs = []int{first}
+		if r.Rng.Intn(4) == 0 {
+			s.refs = append(s.refs, r.Rng.Intn(nSets))
+		}
+		if r.Rng.Intn(8) > 0 {
+			for j, n := 0, 1+r.Rng.Intn(2); j < n; j++ {
+				rl := r.setRule12(pool)
+				if t := rl.text(); t == "" || t[0] == '$' || t[0] == '&' { // `$` / `&` open a set / file argument
+					rl.prefix = true
+				}
+				if r.Rng.Intn(4) == 0 {
+					s.file = append(s.file, rl)
+				} else {
+					s.exps = append(s.exps, rl)
+				}
+			}
+		}
+		sets = append(sets, s)
+	}
+	return sets
 }
 
 var regexps12 = []string{`^ad[0-9]*\.`, `\.example\.com$`, `^[a-z]+\.net$`, `cdn`, `^www\d?\.`, `co\.uk$`, `^(a|b)\.`, `tracker`}
@@ -139,7 +210,29 @@ func (r *Run) hierarchy12(pool *[]string) ([]*set12, string) {
 		}
 		return p
 	}
-	if r.Rng.Intn(2) == 0 {
+	shapeNo := r.Rng.Intn(3)
+	if shapeNo == 2 {
+		// qname matchers over a shared set of 1..9 members (own rules count as one member, every referenced
+		// set as one; the same leaf may be named twice)
+		var leaves []int
+		for i, nl := 0, 1+r.Rng.Intn(4); i < nl; i++ {
+			s := &set12{}
+			r.ownRules12(s, 1+r.Rng.Intn(2), pool)
+			leaves = append(leaves, add(s))
+		}
+		base := &set12{}
+		members := 1 + r.Rng.Intn(9)
+		if r.Rng.Intn(4) > 0 {
+			r.ownRules12(base, 1+r.Rng.Intn(2), pool)
+			members--
+		}
+		for i := 0; i < members; i++ {
+			base.refs = append(base.refs, leaves[r.Rng.Intn(len(leaves))])
+		}
+		bi := add(base)
+		return r.matchers12(sets, bi, pool), "qname-matchers"
+	}
+	if shapeNo == 0 {
 		// any acyclic configuration
 		k := 3 + r.Rng.Intn(7)
 		for i := 0; i < k; i++ {
@@ -156,6 +249,9 @@ func (r *Run) hierarchy12(pool *[]string) ([]*set12, string) {
 			}
 			r.ownRules12(s, n, pool)
 			add(s)
+		}
+		if r.Rng.Intn(3) == 0 {
+			return r.matchers12(sets, r.Rng.Intn(len(sets)), pool), "dag+qname-matchers"
 		}
 		return sets, "dag"
 	}
@@ -295,10 +391,13 @@ func (r *Run) setsCase12(dir string, it int, sets []*set12, names []string, comp
 	}
 	failed := false
 	ask := func(i int, phase string) string {
-		dm := sets[i].built.GetDomainMatcher()
 		bits := make([]byte, len(names))
+		kind := "domain_set"
+		if sets[i].matcher != "" {
+			kind = "qname matcher (" + sets[i].matcher + ")"
+		}
 		for k, nm := range names {
-			_, ok := dm.Match(nm)
+			ok := sets[i].matches12(nm)
 			bits[k] = '0'
 			if ok {
 				bits[k] = '1'
@@ -315,7 +414,7 @@ func (r *Run) setsCase12(dir string, it int, sets []*set12, names []string, comp
 				if want[i][k] {
 					what = "although a rule of the set or of a set it references describes the name"
 				}
-				r.Fail(fmt.Sprintf("domain_set %q, %s: Match(%q) = %v %s", sets[i].tag, phase, nm, ok, what),
+				r.Fail(fmt.Sprintf("%s %q, %s: Match(%q) = %v %s", kind, sets[i].tag, phase, nm, ok, what),
 					map[string]any{"scenario": "domain_set hierarchy (" + shape + ")", "sets_in_config_order": describeSets12(sets), "set": sets[i].tag, "name": nm, "rules_reachable_from_the_set": rt, "when": phase})
 			}
 		}
@@ -360,13 +459,31 @@ func (r *Run) setsCase12(dir string, it int, sets []*set12, names []string, comp
 			js = []string{"_"}
 		}
 		cfg = append(cfg, strings.Join(rs, ",")+"|"+strings.Join(js, ","))
-		ds, err := domain_set.NewDomainSet(coremain.NewBP(s.tag, m), args)
+		var err error
+		switch s.matcher {
+		case "":
+			s.built, err = domain_set.NewDomainSet(coremain.NewBP(s.tag, m), args)
+		case "args":
+			s.seqM, err = base_domain.NewMatcher(sequence.NewBQ(m, m.Logger()), &base_domain.Args{Exps: args.Exps, DomainSets: args.Sets, Files: args.Files}, matchQuestion12)
+		default: // the qname plugin's quick setup: sets first (as drawn), expressions and the file in any order behind
+			var fs []string
+			for _, t := range args.Sets {
+				fs = append(fs, "$"+t)
+			}
+			rest := append([]string(nil), args.Exps...)
+			for _, f := range args.Files {
+				rest = append(rest, "&"+f)
+			}
+			r.Rng.Shuffle(len(rest), func(i, j int) { rest[i], rest[j] = rest[j], rest[i] })
+			s.seqM, err = qname.QuickSetup(sequence.NewBQ(m, m.Logger()), strings.Join(append(fs, rest...), []string{" ", "  ", "\t"}[r.Rng.Intn(3)]))
+		}
 		if err != nil {
 			r.Fail("a valid configuration of domain sets was rejected", map[string]any{"scenario": "domain_set hierarchy (" + shape + ")", "sets_in_config_order": describeSets12(sets), "set": s.tag, "err": err.Error()})
 			return
 		}
-		s.built = ds
-		plugins[s.tag] = ds
+		if s.matcher == "" {
+			plugins[s.tag] = s.built
+		}
 		ask(i, "right after it was built")
 	}
 	var outs []string
@@ -426,4 +543,20 @@ func (r *Run) setsCase12(dir string, it int, sets []*set12, names []string, comp
 		r.Count("sets: two or more sets made of other sets only")
 	}
 	r.Count(fmt.Sprintf("sets: %d referencing sets", nref))
+	// qname matchers that name the same set first and carry rules of their own, by the number of members of that set
+	firstBy := map[int]int{}
+	for _, s := range sets {
+		if s.matcher != "" && len(s.exps)+len(s.file) > 0 {
+			firstBy[s.refs[0]]++
+		}
+	}
+	for j, c := range firstBy {
+		if c >= 2 {
+			mem := len(sets[j].refs)
+			if len(sets[j].exps)+len(sets[j].file) > 0 {
+				mem++
+			}
+			r.Count(fmt.Sprintf("sets: two or more qname matchers with own rules name the same set of %d members first", mem))
+		}
+	}
 }
